@@ -314,6 +314,24 @@ pub fn run(ctx: &Ctx) {
         }
         out::outcome(idx, &class, v, &sig, &detail);
     }
+    // --- the async poll path: the target is the real `poll` of an async fn's future inside this binary;
+    // exercised at its natural placement and with the binary's own neighbourhood reserved except one hole
+    let base_idx = cases.len() as u64;
+    let async_cases: Vec<(usize, Hole)> = (0..3usize).flat_map(|k| [Hole::Natural, Hole::First, Hole::Minus64M, Hole::Plus64M, Hole::Last].into_iter().map(move |h| (k, h))).collect();
+    for (j, (k, h)) in async_cases.iter().enumerate() {
+        let idx = base_idx + j as u64;
+        if !ctx.mine(idx) {
+            continue;
+        }
+        let class = format!("binary-text/async-poll{}/hole:{:?}", k, h);
+        out::intent(idx, &class, &J::new().s("crash_sig", "async-poll"));
+        let (v, sig, detail) = one_async(*k, *h, lowest, &mut forms, &mut refused);
+        match v {
+            Verdict::Inconclusive => skipped += 1,
+            _ => decided += 1,
+        }
+        out::outcome(idx, &class, v, &sig, &detail);
+    }
     let forms_j = forms.iter().fold(J::new(), |j, (k, v)| j.n(k, *v));
     out::summary(
         &J::new()
@@ -655,4 +673,101 @@ fn one(
         return (Verdict::Held, "".into(), detail.b("note_displacement_not_as_planned", true));
     }
     (Verdict::Held, "".into(), detail)
+}
+
+
+fn one_async(k: usize, hole: Hole, lowest: usize, forms: &mut std::collections::BTreeMap<String, u64>, refused: &mut u64) -> (Verdict, String, J) {
+    use super::pool::{a0, a1, a2, block_on, poll_addr};
+    let taddr = match k {
+        0 => poll_addr(&a0(0)),
+        1 => poll_addr(&a1(0)),
+        _ => poll_addr(&a2("")),
+    };
+    let call = |k: usize| -> i64 {
+        match k {
+            0 => block_on(a0(5)).0 as i64,
+            1 => block_on(a1(5)).0 as i64,
+            _ => block_on(a2("x")).0.len() as i64,
+        }
+    };
+    let orig = [6i64, 7, 6][k];
+    if call(k) != orig {
+        return (Verdict::Inconclusive, "skip:async-selfcheck".into(), J::new());
+    }
+    let image = bytes_at(taddr, 16);
+    let holea = match hole {
+        Hole::Natural => None,
+        h => match hole_addr(h, taddr, lowest) {
+            Some(a) if crate::maps::is_free(a, PAGE) => Some(a),
+            _ => return (Verdict::Inconclusive, "skip:hole-occupied".into(), J::new()),
+        },
+    };
+    let resv = holea.map(|h| {
+        let lo = taddr.saturating_sub(RANGE + 16 * PAGE).max(lowest);
+        let hi = (taddr + RANGE + 16 * PAGE).min(0x7fff_ffff_f000);
+        Reservation::reserve(lo, hi, &[(h, h + PAGE)])
+    });
+    let led0 = ip::ledger_snapshot();
+    let (res, _msgs) = panicobs::observe(|| {
+        let mut inj = ip::lib(InjectorPP::new);
+        ip::lib(|| match k {
+            0 => inj.when_called_async(injectorpp::async_func!(a0(0), u32)).will_return_async(injectorpp::async_return!(0x7E57, u32)),
+            1 => unsafe { inj.when_called_async_unchecked(injectorpp::async_func_unchecked!(a1(0))).will_return_async_unchecked(injectorpp::async_return_unchecked!(0x7E58, u32)) },
+            _ => inj.when_called_async(injectorpp::async_func!(a2(""), String)).will_return_async(injectorpp::async_return!("twelve chars".to_string(), String)),
+        });
+        inj
+    });
+    drop(resv);
+    let new_maps = new_lib_mappings(&led0);
+    let mut d = J::new().x("poll_fn", taddr).s("new_lib_mappings", &format!("{:x?}", new_maps));
+    let inj = match res {
+        Err(m) => {
+            *refused += 1;
+            d = d.s("panic", &m);
+            if bytes_at(taddr, 16) != image || call(k) != orig {
+                return (Verdict::Violated, "refused-install-modified-target".into(), d);
+            }
+            return (Verdict::Held, String::new(), d);
+        }
+        Ok(i) => i,
+    };
+    let want = [0x7E57i64, 0x7E58, 12][k];
+    let mut got = vec![call(k), call(k)];
+    let hs: Vec<_> = (0..3).map(|_| std::thread::spawn(move || match k {
+        0 => block_on(a0(9)).0 as i64,
+        1 => block_on(a1(9)).0 as i64,
+        _ => block_on(a2("yy")).0.len() as i64,
+    })).collect();
+    for h in hs {
+        got.push(h.join().unwrap_or(-1));
+    }
+    let me = rust_fake_a as usize;
+    let text = crate::maps::parse().into_iter().find(|m| m.x() && me >= m.start && me < m.end).map(|m| (m.start, m.end));
+    let reader = live_reader();
+    // the poll function itself lies in the binary's text: stop when control comes BACK into the text
+    // after having left it
+    let w = x86::follow_ex(taddr, usize::MAX - 1, &reader, None);
+    let through_new = w.path.iter().skip(1).any(|(a, _)| new_maps.iter().any(|(s0, l)| *a >= *s0 && *a < *s0 + *l));
+    let lens: Vec<String> = w.words.iter().map(|x| x.len().to_string()).collect();
+    *forms.entry(format!("async:{}", lens.join("+"))).or_insert(0) += 1;
+    let landed_in_text = match &w.end {
+        x86::End::Stopped { at } | x86::End::Unknown { at, .. } => text.map(|(a, b)| *at >= a && *at < b).unwrap_or(false),
+        x86::End::Ret { .. } => true, // a tiny generated poll fn may be fully decodable (mov/ret)
+        _ => false,
+    };
+    d = d.s("path", &format!("{:x?}", w.path)).s("awaits", &format!("{:x?}", got));
+    let reach_ok = new_maps.iter().all(|(a, _)| a.abs_diff(taddr) <= RANGE);
+    let (dres, _) = panicobs::observe(|| ip::lib(|| drop(inj)));
+    let restored = bytes_at(taddr, 16) == image && call(k) == orig && dres.is_ok();
+    d = d.b("restored_after_drop", restored);
+    if got.iter().any(|g| *g != want) {
+        return (Verdict::Violated, "await-did-not-reach-the-fake".into(), d);
+    }
+    if !through_new || !landed_in_text {
+        return (Verdict::Violated, "structural:async-entry-does-not-lead-through-the-trampoline-into-the-binary".into(), d);
+    }
+    if !reach_ok {
+        return (Verdict::Violated, "trampoline-out-of-reach".into(), d);
+    }
+    (Verdict::Held, String::new(), d)
 }
